@@ -19,7 +19,10 @@ TRUSTED = [
     'coq/base/Val.v: SQLite storage-class order and exact int/real comparison, CPython binding; compared with the UNIQUE(key, raw) index of a real database on every enumerated pair',
     'codec hypothesis: pickletools.optimize(pickle.dumps(k, protocol)) is injective on keys (premise pkk_inj) and pickle.load inverts it; multi-element hash-ordered containers are outside it (C13 finding)',
 ]
-ASSUMPTIONS = ['NaN, unencodable text and streams are outside the key domain',
+ASSUMPTIONS = ['unencodable text and streams are outside the key domain',
+               "float NaN keys: float('nan') (the canonical quiet NaN; the model has ONE NaN).  It is one key, distinct from every other key (since "
+               'the repair of C02-F2 Disk.put pickles it).  A NaN with another sign bit or payload (e.g. inf - inf on x86) has another pickle under '
+               'pickle protocols >= 1 and is then a different key: outside the alphabet and the model',
                'bystander monitor: virtual clock (instr.Clock), entries stored at t=1000, operations at t=1050; the raw table is read through a '
                'separate sqlite3 connection (columns store_time, expire_time, tag, size, mode, filename, value; access statistics excluded)']
 
@@ -27,7 +30,7 @@ ASSUMPTIONS = ['NaN, unencodable text and streams are outside the key domain',
 def alphabet(protocol):
     base = ['', 'a', 'b', 'a\x00', '1', '\xe9', '\U0001F600',
             0, 1, -1, 2 ** 53, 2 ** 53 + 1, 2 ** 63 - 1, -2 ** 63, 2 ** 63, -2 ** 63 - 1, 2 ** 64,
-            0.0, -0.0, 1.0, 0.5, 2.0 ** 53, 2.0 ** 63, -2.0 ** 63, 2.0 ** 64, float('inf'), float('-inf'), 5e-324,
+            0.0, -0.0, 1.0, 0.5, 2.0 ** 53, 2.0 ** 63, -2.0 ** 63, 2.0 ** 64, float('inf'), float('-inf'), 5e-324, float('nan'),
             True, False, None, (), (1,), (1.0,), (True,), ('a',), ((1,),), (1, None), frozenset({1}), b'', b'a', b'1', b'\x00']
     out = list(base)
     # bytes keys equal to the serialised form of other keys
@@ -37,7 +40,8 @@ def alphabet(protocol):
 
 
 def native_num(k):
-    return (type(k) is int and -2 ** 63 <= k <= 2 ** 63 - 1) or type(k) is float
+    """numbers that compare numerically: int64-range ints and floats other than NaN (NaN equals no number; all NaNs are one key)"""
+    return (type(k) is int and -2 ** 63 <= k <= 2 ** 63 - 1) or (type(k) is float and k == k)
 
 
 def expected_same(a, b):
@@ -403,8 +407,13 @@ def by_scenario(env, spec, k, bystanders, fresh):
     return problems
 
 
-def by_keys(diskname, protocol):
+def by_keys(diskname, protocol, nan_reachable=True):
     keys = alphabet(protocol)
+    if not nan_reachable:
+        # the NaN regression input has already reported that an entry stored under float('nan') cannot be reached by key.  With such a
+        # defect Index.setdefault(nan, v) never returns (`while True: try: return cache[key] / except KeyError: cache.add(key, v)` adds a
+        # row per round: observed on the unrepaired code, 48 million rows), so NaN is not driven through the operation sweep
+        keys = [k for k in keys if not (type(k) is float and k != k)]
     if diskname == 'JSONDisk':
         keys = [k for k in keys if not isinstance(k, (bytes, tuple, frozenset))] + [[1], [1.0], ['a'], 1e16, 10 ** 16]
     return keys
@@ -429,7 +438,7 @@ def json_same(a, b):
     return num(a) and num(b) and a == b
 
 
-def run_bystanders(ctx, res, thorough, stats):
+def run_bystanders(ctx, res, thorough, stats, nan_reachable=True):
     st = stats.setdefault('bystander_scenarios', 0)
     clock = instr.Clock(T_STORE)
     with instr.Installed(clock):
@@ -439,7 +448,7 @@ def run_bystanders(ctx, res, thorough, stats):
             else:
                 protos = list(range(0, pickle.HIGHEST_PROTOCOL + 1)) if (thorough and ci == 0) else [0, pickle.HIGHEST_PROTOCOL]
             for protocol in protos:
-                keys = by_keys(diskname, protocol)
+                keys = by_keys(diskname, protocol, nan_reachable)
                 env = ByEnv(ctx.scratch('c02by'), container, shards, diskname, cull_limit, protocol, clock)
                 env.by_vals = None
                 ops = INDEX_OPS if container == 'Index' else [o for o in CACHE_OPS if not (o == 'incr' and diskname == 'JSONDisk')]
@@ -523,18 +532,55 @@ def witnesses(res):
         j.close()
     finally:
         shutil.rmtree(d, ignore_errors=True)
-    # finding C02-F2: a float('nan') key is bound as SQL NULL: iteration hands it back as None (another type), and key-ordered
-    # iteration cannot page past / never reaches NULL keys (the Coq side: C03_iterkeys_null_key_refuted)
+
+
+def nan_key_regression(res):
+    """Regression input of the repaired finding C02-F2 (fixed: line in known_findings.txt; nothing is suppressed).  Before the repair a
+    float('nan') key was bound as SQL NULL: iteration handed it back as None, no lookup or removal by key reached the entry, every further
+    set under NaN added a row, and key-ordered iteration could not page past / never reached NULL keys.  Now: c[nan] = 1; c[7] = 2;
+    c[nan] = 3 is TWO entries, NaN is found, listed as NaN by list / reversed / iterkeys (both directions), and removed by del / pop."""
+    import tempfile, shutil
     d = tempfile.mkdtemp(prefix='c02wit-')
     try:
         c = diskcache.Cache(d)
         nan = float('nan')
         c[nan] = 1
         c[7] = 2
-        keys = list(c)
-        ik = list(c.iterkeys())
-        res.witnessed['nan_key_null'] = (len(c) == 2 and None in keys and sorted(map(repr, ik)) != sorted(map(repr, keys)))
+        c[float('nan')] = 3
+        obs = {'len': len(c), 'list': list(c), 'reversed': list(reversed(c)), 'iterkeys': list(c.iterkeys()),
+               'iterkeys_reverse': list(c.iterkeys(reverse=True)), 'get': c.get(nan, 'MISSING'), 'contains': nan in c,
+               'raw_rows': [(None if k is None else (bytes(k) if isinstance(k, (bytes, memoryview)) else k), r) for k, r in rows_of(d)]}
+        isnan = lambda x: type(x) is float and x != x
+        two = lambda l: len(l) == 2 and sum(1 for x in l if isnan(x)) == 1 and sum(1 for x in l if type(x) is int and x == 7) == 1
+        problems = []
+        if obs['len'] != 2 or len(obs['raw_rows']) != 2:
+            problems.append(('key_alias:float:float', 'two sets under float(nan) and one under 7 gave %d entries (%d rows)' % (obs['len'], len(obs['raw_rows']))))
+        if any(k is None for k, _r in obs['raw_rows']):
+            problems.append(('null_database_key', 'the table holds a NULL key: %r' % (obs['raw_rows'],)))
+        if not (len(obs['list']) == 2 and isnan(obs['list'][0]) and obs['list'][1] == 7 and two(obs['reversed'])):
+            problems.append(('iteration_key_altered', 'list(cache) = %r, reversed = %r; stored keys nan, 7' % (obs['list'], obs['reversed'])))
+        if not (two(obs['iterkeys']) and two(obs['iterkeys_reverse']) and
+                [repr(x) for x in obs['iterkeys_reverse']] == [repr(x) for x in obs['iterkeys']][::-1]):
+            problems.append(('iterkeys_incomplete', 'iterkeys() = %r, iterkeys(reverse=True) = %r; stored keys nan, 7' % (obs['iterkeys'], obs['iterkeys_reverse'])))
+        if obs['get'] != 3 or obs['contains'] is not True:
+            problems.append(('own_entry_unreachable', 'get(nan) = %r, nan in cache = %r after c[nan] = 3' % (obs['get'], obs['contains'])))
+        if not problems:
+            try:
+                del c[nan]
+                after_del = (len(c), list(c))
+                c[nan] = 4
+                popped = c.pop(float('nan'), 'MISSING')
+                after_pop = (len(c), list(c))
+            except KeyError as e:
+                after_del = after_pop = popped = ('KeyError', repr(e))
+            if after_del != (1, [7]) or popped != 4 or after_pop != (1, [7]):
+                problems.append(('own_entry_unreachable', 'del c[nan] left %r; c[nan] = 4; pop(nan) = %r left %r' % (after_del, popped, after_pop)))
         c.close()
+        case = {'check': 'nan_key_regression', 'history': 'c[nan] = 1; c[7] = 2; c[nan] = 3', 'observed': {k: short(v) for k, v in obs.items()}}
+        res.count(['nan-key-regression'], nontrivial=True)
+        for sig, desc in problems:
+            res.violations.append(fw.Violation(sig, 'float(nan) key (regression input of the repaired finding C02-F2): ' + desc, case))
+        return not problems
     finally:
         shutil.rmtree(d, ignore_errors=True)
 
@@ -542,7 +588,7 @@ def witnesses(res):
 def run(ctx, big=False):
     res = fw.Result()
     res.rule = ('ordered pairs over an alphabet of ~50 keys (str, bytes incl. bytes equal to other keys\' serialised forms, ints inside/outside int64 '
-                'incl. boundaries, floats incl. -0.0/inf/subnormal/2**53/2**63, bool, None, tuples, frozenset): store both, observe len, membership, '
+                'incl. boundaries, floats incl. -0.0/inf/nan/subnormal/2**53/2**63, bool, None, tuples, frozenset): store both, observe len, membership, '
                 'get, list(cache), iterkeys against the documented equality rule; model put/db_same/get compared with the rows of the real table. '
                 'quick: all numeric x numeric pairs + a seeded sample; thorough: all pairs x all pickle protocols + JSONDisk.  '
                 'Bystanders: every key k of the alphabet x own entry {missing, live, live with future expiry and tag, expired} x operation '
@@ -553,6 +599,7 @@ def run(ctx, big=False):
                 'culled when cull_limit > 0), and the other keys still answer with their own value, expire_time and tag.')
     stats = {'pairs': 0, 'same': 0}
     coqcases = []
+    nan_reachable = nan_key_regression(res)      # first: decides whether NaN can be driven through the operation sweep
     thorough = (not ctx.quick) or big
     protos = list(range(0, pickle.HIGHEST_PROTOCOL + 1)) if thorough else [0, pickle.HIGHEST_PROTOCOL]
     for p in protos:
@@ -562,7 +609,7 @@ def run(ctx, big=False):
         correspondence(ctx, res, coqcases, 1500 if ctx.quick else 6000)
     import time as _t
     t0 = _t.time()
-    run_bystanders(ctx, res, not ctx.quick, stats)
+    run_bystanders(ctx, res, not ctx.quick, stats, nan_reachable)
     concurrent_identity(ctx, res, stats)
     res.extra.update({'pairs': stats['pairs'], 'pairs_expected_same': stats['same'], 'exhaustive': thorough,
                       'bystander_scenarios': stats['bystander_scenarios'], 'concurrent_identity_runs': stats.get('conc_identity_runs'), 'bystander_s': round(_t.time() - t0, 1)})
@@ -578,6 +625,13 @@ def replay(payload):
     case = payload.get('case', {})
     import tempfile, shutil
     d = tempfile.mkdtemp(prefix='c02r-')
+    if case.get('check') == 'nan_key_regression':
+        shutil.rmtree(d, ignore_errors=True)
+        r = fw.Result()
+        ok = nan_key_regression(r)
+        for v in r.violations:
+            print(v.sig, v.desc)
+        return ok
     if case.get('check') == 'bystanders':
         clock = instr.Clock(T_STORE)
         try:
